@@ -156,6 +156,8 @@ func gen(t *rapid.T) Script {
 			// an idle stream need not be a high odd one: an even identifier the server never promised is idle too,
 			// whatever streams the client has opened meanwhile
 			op.Variant = rapid.SampledFrom([]string{"", "even-low"}).Draw(t, "idlev")
+		case "window_update_zero_inc":
+			op.Variant = rapid.SampledFrom([]string{"", "reserved-bit"}).Draw(t, "wzv")
 		case "settings_bad":
 			op.Variant = rapid.SampledFrom([]string{"length", "on-stream", "enable-push-2", "window-too-big", "max-frame-small", "ack-with-payload"}).Draw(t, "sbv")
 		case "ping_bad":
@@ -861,6 +863,12 @@ func exec(t *testing.T, s Script) (viol *vstat.Violation, classes map[string]boo
 				peer.Fr.WriteWindowUpdate(idleFor(op), 10)
 			case "window_update_zero_inc":
 				ex = connErr("window-update-zero-increment-connection", cProtocol)
+				if op.Variant == "reserved-bit" {
+					// the reserved bit in front of the increment is ignored (RFC 9113 6.9): the increment is still zero
+					classes["window-update-zero-increment-with-the-reserved-bit-set"] = true
+					peer.Fr.WriteRawFrame(xhttp2.FrameWindowUpdate, 0, 0, []byte{0x80, 0, 0, 0})
+					break
+				}
 				peer.Fr.WriteRawFrame(xhttp2.FrameWindowUpdate, 0, 0, []byte{0, 0, 0, 0})
 			case "window_update_len":
 				ex = connErr("window-update-bad-length", cFrameSize)
